@@ -1,0 +1,79 @@
+//go:build verif
+
+// Verification hook (build tag "verif" only): read-only snapshot of a
+// BalanceGslb (sub-clusters with weight/type and their backend lists), taken
+// under the balancer's own mutex, plus the sub-cluster the balancer assigns to
+// a given hash key. Used by external monitors only.
+
+package bal_gslb
+
+import (
+	"github.com/bfenetworks/bfe/bfe_balance/bal_slb"
+)
+
+// VerifSub is the view of one sub-cluster.
+type VerifSub struct {
+	Name      string
+	Blackhole bool
+	Weight    int
+	RR        bal_slb.VerifRR
+}
+
+// VerifGslb is the view of one BalanceGslb.
+type VerifGslb struct {
+	Name        string
+	TotalWeight int
+	Single      bool
+	AvailIndex  int
+	RetryMax    int
+	CrossRetry  int
+	BalanceMode string
+	Sticky      bool
+	Strategy    int
+	Subs        []VerifSub
+}
+
+// VerifSnapshot returns the balancer's state in list order, under bal.lock
+// (and each sub-cluster's BalanceRR mutex, in the order Balance takes them).
+func (bal *BalanceGslb) VerifSnapshot() VerifGslb {
+	bal.lock.Lock()
+	defer bal.lock.Unlock()
+
+	s := VerifGslb{
+		Name:        bal.name,
+		TotalWeight: bal.totalWeight,
+		Single:      bal.single,
+		AvailIndex:  bal.avail,
+		RetryMax:    bal.retryMax,
+		CrossRetry:  bal.crossRetry,
+		BalanceMode: bal.BalanceMode,
+	}
+	if bal.hashConf.SessionSticky != nil {
+		s.Sticky = *bal.hashConf.SessionSticky
+	}
+	if bal.hashConf.HashStrategy != nil {
+		s.Strategy = *bal.hashConf.HashStrategy
+	}
+	for _, sub := range bal.subClusters {
+		s.Subs = append(s.Subs, VerifSub{
+			Name:      sub.Name,
+			Blackhole: sub.sType == TypeGslbBlackhole,
+			Weight:    sub.weight,
+			RR:        sub.backends.VerifSnapshot(),
+		})
+	}
+	return s
+}
+
+// VerifPrimary reports the sub-cluster that the balancer's own sub-cluster
+// level selection assigns to hash key (ok=false when it reports an error).
+func (bal *BalanceGslb) VerifPrimary(key []byte) (name string, ok bool) {
+	bal.lock.Lock()
+	defer bal.lock.Unlock()
+
+	sub, err := bal.subClusterBalance(key)
+	if err != nil || sub == nil {
+		return "", false
+	}
+	return sub.Name, true
+}
